@@ -426,7 +426,9 @@ func (p *parser) parseDotMember(left ast.Expression) ast.Expression {
 	literal := p.literal
 	idx := p.idx
 
-	if !matchIdentifier.MatchString(literal) {
+	// An identifier token is an IdentifierName whatever its characters (7.6);
+	// the pattern only vets the literals of keyword-like tokens.
+	if p.token != token.IDENTIFIER && !matchIdentifier.MatchString(literal) {
 		p.expect(token.IDENTIFIER)
 		p.nextStatement()
 		return &ast.BadExpression{From: period, To: p.idx}
